@@ -24,7 +24,9 @@ RULE = (
     "alias, raw payload, config / settings lists) at 0/1/127/128/255/256/300 and at the lengths that put 0x00 / 0xFF into the "
     "low or high octet of the HDAP length field, the TMP option-length field and the HRNP total length (up to the 65516-"
     "octet payload that fills an HRNP packet), HDAP checksum steered to 0x00 / 0xFF and HRNP checksum steered to 0x0000 / "
-    "0x0001 / 0xFFFE / a second end-around carry (one octet / the packet number solved on the reference), HSTRP option "
+    "0x0001 / 0xFFFE / 0x7E04 / 0x0303 / 0x0003 / 0x0300 / a second end-around carry (one octet / the packet number solved on the "
+    "reference), HDAP checksum also steered to 0x03, 0x7E and the frame's own service octet, and to 0x03 while the last payload "
+    "octet is 0x03 too (tail octet of an id / value / text / octet string set, another octet solved), HSTRP option "
     "lists: none, each type alone, the same option 2x / 6x, 16 options, option data of 0/1/127/128/255 octets; all 32 "
     "HSTRP type-bit combinations and all HRNP control opcodes in 'transport'; characters / octets that codecs and framers "
     "treat specially: TMP text with U+FEFF / U+FFFE / U+FFFD / U+FFFF / NUL / blanks / TAB / CR / LF / CRLF / characters whose "
@@ -1189,46 +1191,102 @@ def _reference_frame(case):
         return None
 
 
-def _steer_octet(case):
-    """(path, kind) of one payload octet that can take any value"""
+def _get(case, path):
+    cur = case
+    for k in path:
+        cur = cur[k]
+    return cur
+
+
+def _steer_candidates(case):
+    """(path, kind) of payload octets that can take any value: low octet of integer fields, first octet of octet-string fields"""
     f = case["f"]
-    for k in ("request_id", "target_id", "sender_id", "status_value", "broadcast_type"):
-        if k in f:
-            return ("f", k), "int"
-    if "ip" in f:
-        return ("f", "ip", "id"), "int"
-    for k in ("raw_value", "raw_payload", "alias"):
-        if f.get(k):
-            return ("f", k), "hex"
+    out = [(("f", k), "int") for k in ("request_id", "target_id", "sender_id", "status_value", "broadcast_type") if k in f]
+    out += [(("f", k, "id"), "int") for k in ("ip", "dst", "src") if k in f]
+    out += [(("f", k), "hex") for k in ("raw_value", "raw_payload", "alias", "short", "option") if f.get(k)]
     if len(f.get("config", "")) > 2:
-        return ("f", "config"), "hex"
-    return None, None
+        out.append((("f", "config"), "hex_last"))
+    return out
+
+
+def _steered(case, path, kind, target: int):
+    """case with one free octet changed so that the reference HDAP checksum octet equals ``target`` (None when it does not work out)"""
+    frame = _reference_frame(case)
+    if frame is None:
+        return None
+    delta = (frame[-2] - target) & 0xFF
+    cur = _get(case, path)
+    if kind == "int":
+        new = (cur & ~0xFF) | ((cur + delta) & 0xFF)
+    else:
+        b = bytearray.fromhex(cur)
+        i = -1 if kind == "hex_last" else 0
+        b[i] = (b[i] + delta) & 0xFF
+        new = b.hex()
+    c = _with(case, path, new)
+    fr = _reference_frame(c)
+    return c if fr is not None and fr[-2] == target else None
+
+
+def _tail_candidates(case):
+    """cases whose LAST payload octet may become 0x03 (the HDAP end octet): low / high octet of every integer field, last octet of
+    every octet-string field, a text ending in U+0300 (UTF-16-LE 00 03)"""
+    f = case["f"]
+    for k, (lo, hi) in F_INT.items():
+        if k in f:
+            bits = hi.bit_length() + (-hi.bit_length()) % 8
+            for v in ((f[k] & ~0xFF) | 0x03, (f[k] & ((1 << (bits - 8)) - 1)) | (0x03 << (bits - 8))):
+                if lo <= v <= hi:
+                    yield _with(case, ("f", k), v)
+    for ipk in ("ip", "dst", "src"):
+        if ipk in f:
+            yield _with(case, ("f", ipk, "id"), (f[ipk]["id"] & ~0xFF) | 0x03)
+            yield _with(case, ("f", ipk, "subnet"), 0x03)
+    for k in ("raw_value", "raw_payload", "alias", "short", "option", "config"):
+        if f.get(k) and not (k == "config" and len(f[k]) <= 2):
+            yield _with(case, ("f", k), f[k][:-2] + "03")
+    for k in ("short", "option", "raw_payload", "alias"):
+        if k in f and f[k] == "":
+            yield _with(case, ("f", k), "03")
+    if "text" in f:
+        yield _with(case, ("f", "text"), f["text"] + "\u0300")
+    if "status_value" in f:
+        yield _with(case, ("f", "status_value"), 0x0300 | (f["status_value"] & 0xFF))
 
 
 def _checksum_variants(case):
-    # HDAP checksum octet -> 0x00 / 0xFF by solving the low octet of one free field (sum changes by the same amount)
+    """computed trailer fields at values that collide with delimiters"""
     frame = _reference_frame(case)
-    path, kind = _steer_octet(case)
-    if frame is not None and path is not None:
-        for target in (0x00, 0xFF):
-            delta = (frame[-2] - target) & 0xFF
-            cur = case
-            for k in path:
-                cur = cur[k]
-            if kind == "int":
-                new = (cur & ~0xFF) | ((cur + delta) & 0xFF)
-            else:
-                b = bytearray.fromhex(cur)
-                b[-1] = (b[-1] + delta) & 0xFF
-                new = b.hex()
-            c = _with(case, path, new)
-            fr = _reference_frame(c)
-            if fr is not None and fr[-2] == target:
-                yield f"hdap_checksum_{target:02x}", c
-    # HRNP checksum -> 0x0000 / 0x0001 / 0xFFFE and the double-carry class, by solving the packet number on the reference
+    cands = _steer_candidates(case)
+    if frame is not None and cands:
+        # HDAP checksum octet -> 0x00 / 0xFF / 0x03 (end octet) / 0x7E (HRNP header) / the frame's own service octet
+        for target in (0x00, 0xFF, 0x03, 0x7E, frame[0]):
+            for path, kind in cands:
+                c = _steered(case, path, kind, target)
+                if c is not None:
+                    yield "hdap_checksum_" + ("service_octet" if target == frame[0] and target not in (0, 0xFF, 3, 0x7E) else f"{target:02x}"), c
+                    break
+        # ... and checksum == 0x03 with the last payload octet == 0x03 as well (stripping the end octet greedily eats payload)
+        done = False
+        for tail in _tail_candidates(case):
+            fr = _reference_frame(tail)
+            if fr is None or fr[-3] != 0x03 or len(fr) < 8:
+                continue
+            for path, kind in _steer_candidates(tail):
+                c = _steered(tail, path, kind, 0x03)
+                if c is not None:
+                    fr2 = _reference_frame(c)
+                    if fr2[-3] == 0x03 and fr2[-2] == 0x03:
+                        yield "hdap_payload_tail_and_checksum_03", c
+                        done = True
+                        break
+            if done:
+                break
+    # HRNP checksum word -> 0x0000 / 0x0001 / 0xFFFE / 0x7E04 (header + version) / 0x0303 / 0x0003 / 0x0300 and the double-carry class,
+    # by solving the packet number on the reference
     if frame is not None:
         h = case["hrnp"]
-        for target in ("double_carry", 0x0000, 0x0001, 0xFFFE):
+        for target in ("double_carry", 0x0000, 0x0001, 0xFFFE, 0x7E04, 0x0303, 0x0003, 0x0300):
             for pn in _solve_pn(h, frame, target):
                 yield f"hrnp_checksum_{target if isinstance(target, str) else '%04x' % target}", _with(case, ("hrnp", "pn"), pn)
                 break
@@ -1282,7 +1340,7 @@ def boundary_cases_transport(rng):
                 if env == "hrnp":
                     for v in _bvals(lo, hi):
                         yield "envelope_int", _with(base, ("hrnp", k), v)
-            for target in ("double_carry", 0x0000, 0x0001, 0xFFFE):
+            for target in ("double_carry", 0x0000, 0x0001, 0xFFFE, 0x7E04, 0x0303, 0x0003, 0x0300):
                 for pn in _solve_pn(h, b"", target, ref.HRNP_OPCODES[opcode]):
                     yield f"hrnp_checksum_{target if isinstance(target, str) else '%04x' % target}", _with(base, ("hrnp", "pn"), pn)
                     break
